@@ -511,7 +511,8 @@ def _guard_table_from_paths(run, Q, ps, P, cases, hyp, mod, node, what,
 def _slice_modes(run, world, mod, c):
     """__getitem__ / __setitem__ with a slice key, and _readslice itself."""
     spec = _spec()
-    SL = {"isinstance(key, slice)": True}
+    SL = {"isinstance(key, slice)": True, "isinstance(key, int)": False}
+    KEYTESTS = ("isinstance(key, slice)", "isinstance(key, int)")
     # ---- __getitem__[slice] -------------------------------------------------
     fn, ps = _frame_paths(world, c, "__getitem__")
     Q = FR + ".Frame.__getitem__"
@@ -524,12 +525,12 @@ def _slice_modes(run, world, mod, c):
         hyp = oh + [("le", pred.ZERO, "bits", 1)]
         _guard_table_from_paths(run, "%s[slice,%s]" % (Q, order), sl, P,
                                 _slice_cases(spec["_readslice"]), hyp, mod,
-                                fn, "slice", skip=("isinstance(key, slice)",))
+                                fn, "slice", skip=KEYTESTS)
         rets = [p_ for p_ in sl if p_.kind == "return"]
         if not rets:
             raise AnalysisError("%s: slice read returns nothing" % Q)
         for p_ in rets:
-            d = _path_dnf(P, p_, ("isinstance(key, slice)",))
+            d = _path_dnf(P, p_, KEYTESTS)
             for conj in d:
                 if not pred.sat(conj, hyp + LEGAL_SLICE):
                     continue
@@ -587,12 +588,12 @@ def _slice_modes(run, world, mod, c):
              sspec["value too big"])]
         _guard_table_from_paths(run, "%s[slice,%s]" % (Q, order), sl, P,
                                 cases, hyp, mod, fn, "slice write",
-                                skip=("isinstance(key, slice)",))
+                                skip=KEYTESTS)
         done = [p_ for p_ in sl if p_.kind in ("fall", "return")]
         if not done:
             raise AnalysisError("%s: slice write never completes" % Q)
         for p_ in done:
-            d = _path_dnf(P, p_, ("isinstance(key, slice)",))
+            d = _path_dnf(P, p_, KEYTESTS)
             final = [v for (t, v) in p_.effects if t == "self._data"]
             for conj in d:
                 if not pred.sat(conj, hyp + LEGAL_SLICE):
@@ -875,7 +876,7 @@ def _add_contains_views(run, world, mod, c):
     run.rule("R-FRAME-VIEW", "views read only _data/_bits and are the "
              "big-endian encodings of the same number; equality = same "
              "width and bits")
-    fn = c.methods["__add__"][1]
+    fn = normalise(c.methods["__add__"][1], world, FR, c, aliases=True)
     Q = FR + ".Frame.__add__"
     call = None
     for n in ast.walk(fn):
@@ -916,7 +917,7 @@ def _add_contains_views(run, world, mod, c):
         {"self._bits": BITS, "len(self)": BITS})
 
     def one_return(name):
-        f2 = normalise(c.methods[name][1], world, FR, c, aliases=False)
+        f2 = normalise(c.methods[name][1], world, FR, c, aliases=True)
         r = _returns(f2)
         if len(r) != 1:
             raise AnalysisError("Frame.%s: expected a single return" % name)
@@ -1058,13 +1059,8 @@ def _add_contains_views(run, world, mod, c):
                where(mod, c.methods[name][1]))
     # ---- membership ---------------------------------------------------------
     cf = normalise(c.methods["__contains__"][1], world, FR, c, aliases=False)
-    got = {}
-    for n in ast.walk(cf):
-        if isinstance(n, ast.If) and isinstance(n.test, ast.Compare) and \
-                unparse(n.test.left) == "item" and isinstance(
-                    n.test.ops[0], ast.Is) and n.body and isinstance(
-                        n.body[0], ast.Return):
-            got[unparse(n.test.comparators[0])] = n.body[0].value
+    ps = paths.summaries(cf)
+    item = cf.args.args[1].arg
 
     def nonzero_test(e):
         """e is `X != K`; returns (X, K)."""
@@ -1075,22 +1071,38 @@ def _add_contains_views(run, world, mod, c):
                 e.args) == 1:
             return e.args[0], ast.Constant(0)
         return None, None
-    okc = False
-    if set(got) == {"True", "False"}:
-        x1, k1 = nonzero_test(got["True"])
-        x0, k0 = nonzero_test(got["False"])
-        if x1 is not None and x0 is not None:
-            okc = _data_identity(lw, x1) and unparse(k1) == "0" and \
-                _data_identity(lw, x0) and lw.alg.equal(
-                    lw.bv(k0), BV([Seg(Lin.const(0), BITS, "ones")]))
-    else:
-        raise AnalysisError("Frame.__contains__: `item is True/False` "
-                            "branches not found")
-    last = cf.body[-1]
-    run.ob("R-FRAME-VIEW", FR + ".Frame.__contains__", okc and isinstance(
-        last, ast.Return) and unparse(last.value) == "False",
-        "True in f <=> some bit set; False in f <=> some bit clear (all "
-        "`width` lanes); anything else is not contained", where(mod, cf))
+    okc = True
+    seen = set()
+    for p_ in ps:
+        if p_.kind != "return":
+            raise AnalysisError("Frame.__contains__: a path without a "
+                                "result (%r)" % p_)
+        conds = {(unparse(t), b) for (t, b) in p_.conds}
+        is_true = ("%s is True" % item, True) in conds
+        is_false = ("%s is False" % item, True) in conds
+        e = p_.expr
+        if is_true:
+            seen.add(True)
+            x1, k1 = nonzero_test(e)
+            okc = okc and x1 is not None and _data_identity(lw, x1) and \
+                unparse(k1) == "0"
+        elif is_false:
+            seen.add(False)
+            x0, k0 = nonzero_test(e)
+            okc = okc and x0 is not None and _data_identity(lw, x0) and \
+                lw.alg.equal(lw.bv(k0), BV([Seg(Lin.const(0), BITS,
+                                                "ones")]))
+        else:
+            seen.add(None)
+            okc = okc and isinstance(e, ast.Constant) and e.value is False \
+                and ("%s is True" % item, False) in conds and \
+                ("%s is False" % item, False) in conds
+    if seen != {True, False, None}:
+        raise AnalysisError("Frame.__contains__: `item is True / is False / "
+                            "otherwise` cases not found")
+    run.ob("R-FRAME-VIEW", FR + ".Frame.__contains__", okc,
+           "True in f <=> some bit set; False in f <=> some bit clear (all "
+           "`width` lanes); anything else is not contained", where(mod, cf))
     # views do not write
     for name in ["as_integer", "as_byte_sequence", "pack", "pack_len",
                  "__len__", "__eq__", "__ne__", "__getitem__",
